@@ -10,9 +10,13 @@
                          not in the stroke area).  No other hypothesis: every stroke width (also wider than the
                          shape, where the fill area collapses in one or both dimensions), the three alignments, colours
                          present or absent, zero-sized shapes.  The rectangle model covers the solid stroke style
-                         (the property is about solid strokes); circle and ellipse do not look at the stroke style. *)
+                         (the property is about solid strokes); the circle / ellipse code does not look at the stroke style except through
+                         fill_area() (not shrunk for Dotted) - their theorems hold for both kinds, the correspondence runs Solid only.
+   Machine range: squared distances / products are unbounded in the model; they equal the code's i32/u32/u64 arithmetic when
+                         the stroke area satisfies d + 2*width <= 2^15 resp. (w + 2*width)(h + 2*width) <= 2^31 (theorems
+                         C06_*_areas_in_machine_range + C05_*_box_probes_ok). *)
 From EG Require Import Base.Prelude Model.Geometry Model.Style Model.Circle Model.Ellipse Model.Styledrect
-  Proofs.Geometry Proofs.Scanline Proofs.Circle Proofs.Ellipse Proofs.Circlestyled Proofs.Ellipsestyled Proofs.Styledrect Proofs.Pixnodup.
+  Proofs.Geometry Proofs.Scanline Proofs.Circle Proofs.Ellipse Proofs.Circlestyled Proofs.Ellipsestyled Proofs.Styledrect Proofs.Pixnodup Proofs.Curvefacts Proofs.Circlefits.
 From Coq Require Import Sorting.Sorted.
 
 (* ---- the split of the stroke width (Inside: all inside; Outside: all outside; Center: the larger half inside) ---- *)
@@ -25,6 +29,31 @@ Theorem C06_stroke_split : forall st,
   | Center => outside_stroke_width st <= inside_stroke_width st <= outside_stroke_width st + 1
   end.
 Proof. exact stroke_split. Qed.
+
+(* ... and for EVERY u32 stroke width, the saturating operations included: the only width whose parts do not add up is
+   u32::MAX with Center alignment (saturating_add(1)); the offsets handed to OffsetOutline::offset saturate at i32::MAX *)
+Theorem C06_stroke_split_saturating : forall st,
+  0 <= stroke_width st <= u32_max ->
+  (inside_stroke_width st + outside_stroke_width st = stroke_width st \/
+   (stroke_alignment st = Center /\ stroke_width st = u32_max /\
+    inside_stroke_width st = 2147483647 /\ outside_stroke_width st = 2147483647)) /\
+  0 <= stroke_area_offset st <= i32_max /\ - i32_max <= fill_area_offset st <= 0 /\
+  stroke_area_offset st = Z.min (outside_stroke_width st) i32_max /\
+  (stroke_kind st = Solid -> fill_area_offset st = - Z.min (inside_stroke_width st) i32_max).
+Proof. exact stroke_split_sat. Qed.
+
+(* machine range: when the stroke area (shape + 2 * stroke width) is within the range of C05, both areas are, so every
+   distance / product draw() and pixels() compute fits its Rust type and the unbounded model is the machine computation *)
+Theorem C06_circle_areas_in_machine_range : forall c st,
+  circle_sok c -> style_ok st -> c_d c + 2 * stroke_width st <= 32768 ->
+  circle_mok (circle_stroke_area c st) /\ circle_mok (circle_fill_area c st).
+Proof. exact circle_styled_machine_ok. Qed.
+
+Theorem C06_ellipse_areas_in_machine_range : forall e st,
+  ellipse_sok e -> style_ok st ->
+  (sw (e_sz e) + 2 * stroke_width st) * (sh (e_sz e) + 2 * stroke_width st) <= 2147483648 ->
+  ellipse_mok (ellipse_stroke_area e st) /\ ellipse_mok (ellipse_fill_area e st).
+Proof. exact ellipse_styled_machine_ok. Qed.
 
 (* ---- Rectangle ---- *)
 Theorem C06_rect_styled_spec : forall r st p,
